@@ -59,6 +59,35 @@ def fallback(rng, n):
             'schedule': gen.noise_schedule(rng, max_us=200), 'extra': {'timeout_ms': 15000}}
 
 
+def fallback_burst(rng, n):
+    """the same, all steps finishing at the same instant: every completion arms its own detector chain and every chain
+    reports the dead end - far more than the error buffer holds, after Execute stopped reading it"""
+    it = fallback(rng, n)
+    for s in it['script']:
+        it['script'][s]['exec']['delay_ms'] = 0
+    it['schedule'] = None
+    return it
+
+
+def evalfail_burst(rng, n):
+    """n producers finishing together, each feeding a consumer whose expression cannot be evaluated: n run-time errors
+    reported at once"""
+    from vlib import fexpr
+    wf = {'steps': {}, 'outputs': {}}
+    oc, script = {}, {}
+    for i in range(n):
+        a, b = 'a%02d' % i, 'b%02d' % i
+        wf['steps'][a] = {'kind': 'plugin', 'pstep': 'work', 'fields': {'input': tmap({'id': lit(a)})}}
+        wf['steps'][b] = {'kind': 'plugin', 'pstep': 'nowork', 'fields': {'input': tmap({'id': lit(b), 'deps': tmap({
+            'v': fexpr('stringToInt($.steps.%s.outputs.success.tok)' % a, ['steps.%s.outputs.success.tok' % a])})})}}
+        oc[a], oc[b] = okoc(), okoc()
+        script[a] = {'exec': {'out': 'success', 'delay_ms': 20}}
+        script[b] = {'exec': {'out': 'success'}}
+    wf['outputs']['success'] = tmap({'r': ref('steps.b00.outputs.success.tok')})
+    return {'wf': wf, 'oc': oc, 'script': script, 'input': {'x': 'x', 'n': 1, 'flag': True}, 'want': ['error'], 'nomeaning': True,
+            'schedule': None, 'extra': {'timeout_ms': 15000}}
+
+
 def extra(ctx):
     def f(rng):
         sizes = [2, 5, 20, 21, 22, 25] if ctx.quick else [2, 3, 5, 8, 13, 19, 20, 21, 22, 23, 25, 30, 40, 60]
@@ -70,6 +99,9 @@ def extra(ctx):
                 items.append(fanin(rng, n, 'deployfail', 'slow', with_failure_output=True))
         for n in ([1, 3] if ctx.quick else [1, 2, 3, 6, 24]):
             items.append(fallback(rng, n))
+        for n in ([40] if ctx.quick else [21, 30, 40, 80]):
+            items.append(fallback_burst(rng, n))
+            items.append(evalfail_burst(rng, max(24, n * 3 // 4)))
         return items
     return f
 
